@@ -80,6 +80,54 @@ func c02ACLSpace(name string, nLines, maxLen int) *space {
 	return sp
 }
 
+// log variants: the same rule with and without 'log' / 'log-input' on
+// device and target, inside and at the border of a block.
+var c02LogLines = []string{
+	"permit ip host 10.1.1.1 any",
+	"permit udp any any eq 53",
+	"permit udp any any eq 53 log",
+	"permit udp any any eq 53 log-input",
+	"deny tcp any any eq 23",
+	"deny tcp any any eq 23 log",
+	"deny ip any any",
+}
+
+func c02LogSpace() *space {
+	base := func(i int) int {
+		switch i {
+		case 1, 2, 3:
+			return 1
+		case 4, 5:
+			return 4
+		}
+		return i
+	}
+	var sq [][]int
+	for _, s := range seqs(len(c02LogLines), 1, 4) {
+		seen := map[int]bool{}
+		ok := true
+		for _, i := range s {
+			if seen[base(i)] {
+				ok = false
+			}
+			seen[base(i)] = true
+		}
+		if ok {
+			sq = append(sq, s)
+		}
+	}
+	nb := int64(len(sq))
+	sp := &space{name: "acl-log", model: "IOS", n: nb * nb}
+	sp.gen = func(i int64) (core.Files, core.Files) {
+		sa, sb := sq[i/nb], sq[i%nb]
+		return core.Files{Main: iosACLBody("inside_in", sa, c02LogLines, false) +
+				iosIntf("Ethernet0", "10.0.0.1", "ip access-group inside_in in")},
+			core.Files{Main: iosACLBody("inside_in", sb, c02LogLines, false) +
+				iosIntf("Ethernet0", "10.0.0.1", "ip access-group inside_in in")}
+	}
+	return sp
+}
+
 // interface / binding variants
 func iosIntfSpace() *space {
 	acl := func(name string, v int) string {
@@ -208,6 +256,7 @@ func iosVRFSpace() *space {
 func iosSpaces(ctx *core.Ctx) []*space {
 	l := []*space{
 		c02ACLSpace("acl", 6, 3),
+		c02LogSpace(),
 		routePairSpace("IOS"),
 		iosVRFSpace(),
 		iosIntfSpace(),
@@ -231,7 +280,7 @@ func c02Worker(ctx *core.Ctx) *core.Result {
 func init() {
 	registerSharded("C02", c02Worker, func(tier string) core.Meta {
 		return core.Meta{ID: "C02", Level: "model_checking",
-			Rule:        "states = distinct device-model states (per worker, summed); transitions = runs of the real planner; enumerated: all (device,target) pairs of the spaces acl (block structured, device printed with and without IOS-XE sequence numbers), rt, vrf, intf, crypto, corpus (ios_*.t) and a breadth-first chain of approves; the script is executed on the reference IOS model (sequence numbers, resequence, interface and crypto-map sub-modes); oracle: per managed interface the bound ACLs as sequences of maximal same-action runs (each a set), routes per VRF the target mentions, second compare silent for both print forms, empty script only for an equivalent device",
+			Rule:        "states = distinct device-model states (per worker, summed); transitions = runs of the real planner; enumerated: all (device,target) pairs of the spaces acl (block structured, device printed with and without IOS-XE sequence numbers), acl-log (the same rule with none/log/log-input on either side, len<=4), rt, vrf, intf, crypto, corpus (ios_*.t) and a breadth-first chain of approves; the script is executed on the reference IOS model (sequence numbers, resequence, interface and crypto-map sub-modes); oracle: per managed interface the bound ACLs as sequences of maximal same-action runs (each a set), routes per VRF the target mentions, second compare silent for both print forms, empty script only for an equivalent device",
 			Assumptions: []string{"reference IOS model validated against the repository's DEVICE/NETSPOC/OUTPUT triples"},
 			Bounds:      map[string]any{"quick": "acl len<=3 over 6 lines", "thorough": "acl len<=4 over 8 lines"},
 		}
